@@ -134,8 +134,11 @@ func chunkShape(h *rt.H, c *codec) {
 	}
 	n := len(doc)
 	cuts := make([]bool, n)
-	pos := h.Choose("cutpos", 0, n-1) // n-1: every byte its own chunk
-	if pos == n-1 {
+	// CUTSTEP > 1 (long documents): only every CUTSTEP-th cut position, plus the mode
+	// in which every byte is its own chunk
+	step := h.Param("CUTSTEP", 1)
+	pos := h.Choose("cutpos", 0, (n-1+step-1)/step) * step // >= n-1: every byte its own chunk
+	if pos >= n-1 {
 		for i := range cuts {
 			cuts[i] = true
 		}
